@@ -329,6 +329,12 @@ def popN (le : Cmp ε α) : Nat → List α → List α → Nat → Res ε α (L
       | none => .ok (acc.reverse, r.2) n'
       | some x => popN le k r.2 (x :: acc) n'
 
+/-- `XSequence::n_largest::<DEC>` (sequence.rs:360-400): push every element of the sequence, then pop
+`n` times (stopping when the heap is empty).  `is_le` is `cmp <= 0` for `n_largest`, `cmp >= 0` for
+`n_smallest`. -/
+def nLargest (le : Cmp ε α) (n : Nat) (xs : List α) : Res ε α (List α) :=
+  (pushAll le [] xs 0).bind fun d c => (popN le n d [] c).map (·.1)
+
 end Heap
 
 /-! ### `XSequence::quickselect` (sequence.rs:402-479) behind `nth_smallest` / `nth_largest` / `median`
